@@ -23,6 +23,18 @@ CLAIMED = {
              "modes only (threaded modes: C18).",
         design="DESIGN.md §3 C01",
         technique="Lean 4 proof (invariant by induction over buffer operations) + model/code correspondence + sanitizer oracle"),
+    "C02": dict(
+        engine="conn",
+        text="Lean 4 theorems over a byte-accurate model of get_request_line_inner / get_req_header / get_req_headers (incl. the repaired "
+             "shift-back), for every level (every flag combination), every buffer content and every segmentation: fault-freedom; split "
+             "independence (generic scanner lemma + per-parser locality); stability (all strings handed out lie below read_buffer after "
+             "the tail is re-used, bytes unchanged). Canonical-rendering round trip proved for the header section at all levels and for "
+             "the request line at levels >= 0 (partial). Target/argument decoding, cookies, non-canonical renderings and request-line "
+             "levels < 0 are carried by correspondence: bounded-exhaustive white-box differential (all strings <= 5/6 bytes x 7 levels "
+             "x 2 feeding modes, 24.7M cases quick) + the real daemon with rendered requests against a semantic oracle and the model.",
+        note="Assumes the request fits the arena (413/414/431 one class), the default unescape callback, the configured build; one-shot "
+             "parsers (target, arguments, unescape, cookies) have no fault-freedom theorem (model has explicit faults; correspondence only).",
+        design="DESIGN.md §3 C02/C03", technique="Lean 4 proof (scanner split-independence lemma, invariants, round-trip lemmas) + model/code correspondence + semantic oracle"),
     "C03": dict(
         engine="frame",
         text="Lean 4 proof: decideBody (Transfer-Encoding/Content-Length decision of parse_connection_headers) vs RFC 9112 s6.3 for all "
@@ -77,6 +89,17 @@ CLAIMED = {
         note="Precondition: one readable byte behind the header value (the parser reads str[str_len]; it is the in-buffer NUL). Info-API "
              "theorem under Elem.infoWf (escaped nc <= 16 raw bytes, username* unescaped with complete pct-encoding).",
         design="DESIGN.md §3 C14", technique="Lean 4 proof + regenerated constants + model/code correspondence + RFC reference oracle"),
+    "C16": dict(
+        engine="hash",
+        text="For MD5, SHA-1 (both copies), SHA-256 and SHA-512/256: machine-checked proof that init -> any sequence of update calls (any "
+             "split, any alignment, any starting context) -> finish on the model returns the RFC 1321 / FIPS 180-4 digest of the "
+             "concatenated data, never leaves the context buffer, and leaves a re-usable context. The step tables, round constants, "
+             "shifts, IVs and sizes are re-extracted from the C source each run (instrumented execution of the real transform) and "
+             "proved equal to the standards' tables by decide over the whole tables. Tie: every length 0..300 one-shot/byte-by-byte, "
+             "all 2-way splits <= 140, 16 misalignments under UBSan, white-box counter wrap-arounds, hashlib triple comparison.",
+        note="Specifications and the model's step/sigma/rotate functions are hand-written (validated by published vectors and hashlib). "
+             "That a misaligned pointer is never dereferenced as a word is established by the UBSan run, not by the theorems.",
+        design="DESIGN.md §3 C16", technique="Lean 4 refinement proof + instrumented-execution extractor + triple differential (model, code, hashlib)"),
     "C17": dict(
         engine="str",
         text="Lean 4 proofs over a model of mhd_str.c for all inputs: decimal/hex parse and print are exact inverses with exact overflow and "
